@@ -132,7 +132,14 @@ class ProcEnv:
 
     def exists(self, it, path):
         g = self.advance()
-        it.ctx.log.append(("access", "exists:" + path_text(path), "lifetime", "query"))
+        txt = path_text(path)
+        it.ctx.log.append(("access", "exists:" + txt, "lifetime", "query"))
+        import re as _re
+        if _re.fullmatch(r".*/(\{\}|\d+)/?", txt):
+            # the bare /proc/<pid> directory: the kernel may keep it (empty) for a while after the process is gone
+            # (psutil issue #2418), so its presence proves nothing; its absence proves the process is gone
+            linger = it.fresh("procdir_lingers", "Bool")
+            return Or(Not(g), linger)
         return Not(g)
 
     def stat(self, it, path):
